@@ -996,6 +996,40 @@ func (n *normalizer) selectHoist(s *site, cc *ast.CommClause) *ast.SelectStmt {
 	return nil
 }
 
+// simpleDefers: every defer of the callee is a top-level statement of its body and the callee has no named results, so that
+// the deferred calls can be made explicitly at each of its returns (argument and function values captured where the defer
+// statement stood). Executions in which the callee panics are the only ones that differ.
+func (n *normalizer) simpleDefers(fd *ast.FuncDecl) bool {
+	for _, id := range fieldIdents(fd.Type.Results) {
+		if id != nil {
+			return false
+		}
+	}
+	top := map[*ast.DeferStmt]bool{}
+	for _, st := range fd.Body.List {
+		if d, ok := st.(*ast.DeferStmt); ok {
+			top[d] = true
+		}
+	}
+	ok := true
+	var visit func(node ast.Node)
+	visit = func(node ast.Node) {
+		ast.Inspect(node, func(x ast.Node) bool {
+			switch y := x.(type) {
+			case *ast.FuncLit:
+				return false
+			case *ast.DeferStmt:
+				if !top[y] {
+					ok = false
+				}
+			}
+			return ok
+		})
+	}
+	visit(fd.Body)
+	return ok
+}
+
 func (n *normalizer) reject(s *site, code int) bool {
 	if os.Getenv("MQTTCHECK_DEBUG_NORM") != "" {
 		fmt.Fprintf(os.Stderr, "normalise: site %s at %s not inlined (reason #%d)\n", s.calleeName(), n.fset.Position(s.call.Pos()), code)
@@ -1727,9 +1761,59 @@ func (n *normalizer) bodyText(fd *ast.FuncDecl, mode string, temps []string, res
 		}
 		return out
 	}
+	// deferred calls (non-tail modes): captured where the defer statement stood, made explicitly at every return
+	var active []ast.Stmt // in registration order
+	ndefer := 0
+	captureDefer := func(d *ast.DeferStmt) []ast.Stmt {
+		ndefer++
+		var out []ast.Stmt
+		call := &ast.CallExpr{}
+		fun := d.Call.Fun
+		isBuiltin := false
+		if id, ok := fun.(*ast.Ident); ok {
+			switch id.Name {
+			case "close", "delete", "panic", "print", "println", "recover":
+				isBuiltin = true
+			}
+		}
+		if isBuiltin {
+			call.Fun = fun
+		} else {
+			fv := fmt.Sprintf("%sd%df", label, ndefer)
+			out = append(out, &ast.AssignStmt{Lhs: []ast.Expr{ast.NewIdent(fv)}, Tok: token.DEFINE, Rhs: []ast.Expr{fun}})
+			call.Fun = ast.NewIdent(fv)
+		}
+		for i, a := range d.Call.Args {
+			av := fmt.Sprintf("%sd%da%d", label, ndefer, i)
+			out = append(out, &ast.AssignStmt{Lhs: []ast.Expr{ast.NewIdent(av)}, Tok: token.DEFINE, Rhs: []ast.Expr{a}})
+			call.Args = append(call.Args, ast.NewIdent(av))
+		}
+		if d.Call.Ellipsis.IsValid() && len(call.Args) > 0 {
+			call.Ellipsis = 1
+		}
+		active = append(active, &ast.ExprStmt{X: call})
+		return out
+	}
+	runDefers := func() []ast.Stmt {
+		var out []ast.Stmt
+		for i := len(active) - 1; i >= 0; i-- {
+			out = append(out, active[i])
+		}
+		return out
+	}
 	var rewrite func(list *[]ast.Stmt, top bool)
 	rewrite = func(list *[]ast.Stmt, top bool) {
-		for i, st := range *list {
+		for i := 0; i < len(*list); i++ {
+			st := (*list)[i]
+			if d, isDefer := st.(*ast.DeferStmt); isDefer && top && mode != "tail" {
+				caps := captureDefer(d)
+				nl := append([]ast.Stmt{}, (*list)[:i]...)
+				nl = append(nl, caps...)
+				nl = append(nl, (*list)[i+1:]...)
+				*list = nl
+				i += len(caps) - 1
+				continue
+			}
 			ret, isRet := st.(*ast.ReturnStmt)
 			if !isRet {
 				eachStmtList(st, func(l *[]ast.Stmt) { rewrite(l, false) })
@@ -1753,6 +1837,7 @@ func (n *normalizer) bodyText(fd *ast.FuncDecl, mode string, temps []string, res
 				}
 				repl = append(repl, &ast.AssignStmt{Lhs: idents(targets), Tok: token.ASSIGN, Rhs: rhs})
 			}
+			repl = append(repl, runDefers()...)
 			if th != nil && !nilRet[ret] {
 				repl = append(repl, &ast.IfStmt{
 					Cond: &ast.BinaryExpr{X: ast.NewIdent(th.cond), Op: token.NEQ, Y: ast.NewIdent("nil")},
@@ -1774,6 +1859,9 @@ func (n *normalizer) bodyText(fd *ast.FuncDecl, mode string, temps []string, res
 		}
 	}
 	rewrite(&body.List, true)
+	if mode != "tail" && len(active) > 0 && !finalRet {
+		body.List = append(body.List, runDefers()...) // falling off the end of a result-less callee
+	}
 	var out bytes.Buffer
 	for _, st := range body.List {
 		if es, ok := st.(*ast.EmptyStmt); ok && !es.Implicit {
@@ -1980,7 +2068,7 @@ func (n *normalizer) inlineSite(filename string, s *site) (done bool) {
 			}
 		}
 	}
-	if n.hasDefer[fd] && !tail {
+	if n.hasDefer[fd] && !tail && !n.simpleDefers(fd) {
 		return n.reject(s, 10) // deferred calls of the callee would run later than they do now
 	}
 	var temps []string
